@@ -98,6 +98,8 @@ def build(cfg):
         opt = optax.sgd(lr, momentum=0.5)
     elif name == "adam":
         opt = optax.adam(lr)
+    elif name == "zn_adam":           # NaN gradients are replaced by zeros before the update: the parameters stay finite, training goes on
+        opt = optax.chain(optax.zero_nans(), optax.adam(lr))
     else:
         opt = optax.chain(optax.clip(1.0), optax.scale_by_adam(), optax.scale_by_schedule(optax.piecewise_constant_schedule(-lr, {3: 0.5})))
     if inj and inj["origin"] == "state_only":
